@@ -802,7 +802,13 @@ func (x *Exec) sliceExpr(e *ast.SliceExpr, st *State) Value {
 		// slicing a local array variable: the variable becomes region-backed
 		sl, ok := x.arrayAsSlice(e.X, st, u)
 		if !ok {
-			return x.opaque(st, e, "slice of array expression")
+			// array-valued expression (e.g. a field of a struct value): the
+			// slice is a read-only snapshot of its current content
+			av, isAr := x.expr(e.X, st).(Ar)
+			if !isAr {
+				return x.opaque(st, e, "slice of array expression")
+			}
+			sl = Sl{Comp: av.Comp, Off: x.ar.idxC(0), Len: x.ar.idxC(u.Len()), Nil: False}
 		}
 		base = sl
 		capLen = sl.Len
